@@ -28,7 +28,7 @@ LOG="$OUT/$ID-$PROP-$TIER.log"
 ( cd "$BASE/verif" && VERIF_WORKERS=${VERIF_WORKERS:-16} ./check "$PROP" "$TIER" ) > "$LOG" 2>&1
 EX=$?
 N=$(grep -c "^VIOLATION" "$LOG")
-FIRST=$(grep -E "^violation" "$LOG" | head -1 | cut -c1-140 | tr '|' '/')
+FIRST=$(grep -E "^violation" "$LOG" | head -1 | cut -c1-140 | iconv -f utf-8 -t utf-8 -c | tr '|' '/')
 # keep the first replay file next to the log, for inspection
 R=$(grep -o "replay=[^ ]*" "$LOG" | head -1 | cut -d= -f2)
 [ -n "$R" ] && [ -f "$R" ] && cp "$R" "$OUT/$ID-$PROP-$TIER.replay.json"
